@@ -85,6 +85,13 @@ func genC08(seed uint64, run int, tier string) Scenario {
 	}
 	sc.Ops = append(sc.Ops, NCOp{Kind: "close"})
 	sc.Class = "pairing/" + ver
+	if !cutBase && !long && r.IntN(8) == 0 {
+		// a transient write fault: one write of one request fails (the framed message itself, or
+		// one of the returns behind it), everything afterwards works again
+		sc.F.WriteErrAt = between(r, 2, 2+3*n)
+		sc.F.WriteErrOnce = true
+		sc.Class += "/write-fault"
+	}
 	sc.CutEnum = cutBase
 	if sc.Server.Echo {
 		sc.Class += "/echo"
@@ -124,6 +131,9 @@ func runC08(env *Env, s Scenario) {
 	// request message-ids: pairwise distinct and strictly increasing from the first request
 	prev := -1
 	for i, q := range reqs {
+		if sc.F.WriteErrOnce {
+			break // the stream to the server has a hole: judged from the client's writes below
+		}
 		id, err := strconv.Atoi(q.MID)
 		if err != nil {
 			env.Fail("request-without-message-id", "", "request %d carries no message-id: %q", i, firstN(q.Body, 200))
@@ -137,6 +147,40 @@ func runC08(env *Env, s Scenario) {
 	}
 	stream := string(nr.Tr.Out())
 	rd := sc.readDelay()
+	if sc.F.WriteErrOnce {
+		// a transient write fault takes bytes out of the stream to the server: what the server makes
+		// of the requests after it is not the library's business. What still must hold: the ids the
+		// client put on the wire are distinct and increasing, the call whose write failed says so,
+		// and a call that reports success returns the reply that carries its own id.
+		var ownIDs []int
+		fired := false
+		for _, w := range nr.Tr.Writes {
+			if w.Failed {
+				fired = true
+			}
+			if m := c08MidRe.FindStringSubmatch(string(w.B)); m != nil && strings.Contains(string(w.B), "<rpc") {
+				id, _ := strconv.Atoi(m[1])
+				if n := len(ownIDs); n > 0 && id <= ownIDs[n-1] {
+					env.Fail("message-ids-not-increasing", "", "the client wrote a request with message-id %d after one with %d", id, ownIDs[n-1])
+				}
+				ownIDs = append(ownIDs, id)
+			}
+		}
+		if fired {
+			env.Fault("transient-write-error", 1)
+		}
+		for j := range nr.Recs {
+			rec := &nr.Recs[j]
+			if rec.ReqIndex < 0 || rec.Panicked || rec.ReqIndex >= len(ownIDs) || rec.Err != nil {
+				continue
+			}
+			if m := c08MidRe.FindStringSubmatch(rec.Result); m == nil || m[1] != strconv.Itoa(ownIDs[rec.ReqIndex]) {
+				env.Fail("reply-to-another-request", "", "call %d (message-id %d on the wire) returned %q", j, ownIDs[rec.ReqIndex], firstN(rec.Result, 200))
+			}
+		}
+
+		return
+	}
 	for j := range nr.Recs {
 		rec := &nr.Recs[j]
 		if rec.ReqIndex < 0 || rec.Panicked || rec.ReqIndex >= len(reqs) {
